@@ -9,22 +9,44 @@ import (
 )
 
 func createLockFile(name string, perm os.FileMode) (LockFile, bool, error) {
-	acquiredExisting := false
-	verifYield("lock:stat")
-	if _, err := os.Stat(name); err == nil {
-		acquiredExisting = true
-	}
-	verifYield("lock:open")
-	f, err := os.OpenFile(name, os.O_RDWR|os.O_CREATE, perm)
-	if err != nil {
-		return nil, false, err
-	}
-	verifYield("lock:flock")
-	if err := syscall.Flock(int(f.Fd()), syscall.LOCK_EX|syscall.LOCK_NB); err != nil {
-		if err == syscall.EWOULDBLOCK {
-			err = os.ErrExist
+	for {
+		// The lock file exists only while a session is open or after one that did not unlock it:
+		// whether it pre-existed is decided by the call that opens or creates it, not by an earlier stat.
+		acquiredExisting := true
+		verifYield("lock:open")
+		f, err := os.OpenFile(name, os.O_RDWR, perm)
+		if os.IsNotExist(err) {
+			acquiredExisting = false
+			verifYield("lock:create")
+			f, err = os.OpenFile(name, os.O_RDWR|os.O_CREATE|os.O_EXCL, perm)
+			if os.IsExist(err) {
+				// Another opener created the file in between, look at it again.
+				continue
+			}
 		}
-		return nil, false, err
+		if err != nil {
+			return nil, false, err
+		}
+		verifYield("lock:flock")
+		if err := syscall.Flock(int(f.Fd()), syscall.LOCK_EX|syscall.LOCK_NB); err != nil {
+			_ = f.Close()
+			if err == syscall.EWOULDBLOCK {
+				err = os.ErrExist
+			}
+			return nil, false, err
+		}
+		// The previous holder may have unlinked the file between our open and our flock: a lock on a
+		// file the path no longer names excludes nobody. Make sure the path still names the locked file.
+		verifYield("lock:recheck")
+		locked, err := f.Stat()
+		if err != nil {
+			_ = f.Close()
+			return nil, false, err
+		}
+		if current, err := os.Stat(name); err != nil || !os.SameFile(locked, current) {
+			_ = f.Close()
+			continue
+		}
+		return &osLockFile{f, name}, acquiredExisting, nil
 	}
-	return &osLockFile{f, name}, acquiredExisting, nil
 }
